@@ -1,6 +1,15 @@
 /-
-  Acceptance implies the checksums the format defines (for every byte string, both variants,
-  every input kind).  Core only.
+  Acceptance implies the checksums the format defines.  Core only.
+
+  * `accept_checksums`          for every variant that validates the info-area length byte
+                                (`areaLenLax = false`), every byte string, every input kind: the
+                                format's acceptance condition `checksumsOk` (Spec/FruFormat.lean) –
+                                info-area sums over the DECLARED length, which is ≥ 1 unit and inside
+                                the data
+  * `accept_checksums_clamped`  for EVERY variant (the as-shipped reader included): the weaker
+                                `checksumsClamped` – info-area sums over `data[:length]`, a clamped
+                                and possibly empty slice.  Enough to reject every altered covered
+                                byte other than an info-area length byte (Lemmas/FruAlter*).
 -/
 import PyIpmi.Lemmas.FruImage
 namespace PyIpmi.Fru
@@ -10,6 +19,41 @@ theorem ok_of_bind {α β : Type} {x : Outcome α} {f : α → Outcome β} {b : 
     (h : x.bind f = .ok b) : ∃ a, x = .ok a ∧ f a = .ok b := by
   cases x <;> simp [Outcome.bind] at h
   exact ⟨_, rfl, h⟩
+
+/-! ### what a reader that sums the clamped slice `data[:length]` verifies -/
+
+def areaSumClamped (d : List Nat) : Bool :=
+  match d with
+  | [] => true
+  | _ => sum8 (d.take (8 * d.getD 1 0)) == 0
+
+def checksumsClamped (bs : List Nat) : Bool :=
+  sum8 (bs.take 8) == 0 &&
+  (bs.getD 2 0 == 0 || areaSumClamped (areaAt bs 2)) &&
+  (bs.getD 3 0 == 0 || areaSumClamped (areaAt bs 3)) &&
+  (bs.getD 4 0 == 0 || areaSumClamped (areaAt bs 4)) &&
+  (bs.getD 5 0 == 0 || multiSumOk (areaAt bs 5))
+
+theorem areaSumOk_clamped (d : List Nat) (h : areaSumOk d = true) : areaSumClamped d = true := by
+  cases d with
+  | nil => rfl
+  | cons x t =>
+    simp only [areaSumOk, Bool.and_eq_true] at h
+    simp only [areaSumClamped]
+    exact h.2
+
+theorem checksumsOk_clamped (bs : List Nat) (h : checksumsOk bs = true) : checksumsClamped bs = true := by
+  simp only [checksumsOk, Bool.and_eq_true, Bool.or_eq_true] at h
+  simp only [checksumsClamped, Bool.and_eq_true, Bool.or_eq_true]
+  obtain ⟨⟨⟨⟨h1, h2⟩, h3⟩, h4⟩, h5⟩ := h
+  exact ⟨⟨⟨⟨h1, h2.imp id (areaSumOk_clamped _)⟩, h3.imp id (areaSumOk_clamped _)⟩,
+    h4.imp id (areaSumOk_clamped _)⟩, h5⟩
+
+theorem checksumsOk_false_of_clamped (bs : List Nat) (h : checksumsClamped bs = false) :
+    checksumsOk bs = false := by
+  cases hc : checksumsOk bs with
+  | false => rfl
+  | true => rw [checksumsOk_clamped bs hc] at h; cases h
 
 /-! ### header -/
 
@@ -31,7 +75,31 @@ theorem getD_take (l : List Nat) (n i : Nat) (hi : i < n) : (l.take n).getD i 0 
 
 /-! ### info areas -/
 
-theorem parseArea_ok (v : Variant) (k : InputKind) (kind : AreaKind) (d : List Nat) (s : Slot AreaView)
+theorem parseArea_clamped (v : Variant) (k : InputKind) (kind : AreaKind) (d : List Nat) (s : Slot AreaView)
+    (hp : parseArea v k kind d = .ok s) : areaSumClamped d = true := by
+  cases d with
+  | nil => rfl
+  | cons b0 t =>
+    simp only [parseArea] at hp
+    split at hp
+    · cases hp
+    · split at hp
+      · cases hp
+      · rename_i b1 hb1
+        split at hp
+        · cases hp
+        · split at hp
+          · cases hp
+          · rename_i hsum
+            simp only [areaSumClamped, sum8, beq_iff_eq]
+            have : (b0 :: t).getD 1 0 = b1 := by simp [List.getD, hb1]
+            rw [this, Nat.mul_comm]
+            omega
+
+/-- a reader that validates the length byte: the declared length is ≥ 1 unit, lies inside the
+data, and the sum over exactly that span is zero -/
+theorem parseArea_ok (v : Variant) (hv : v.areaLenLax = false) (k : InputKind) (kind : AreaKind)
+    (d : List Nat) (s : Slot AreaView)
     (hp : parseArea v k kind d = .ok s) : areaSumOk d = true := by
   cases d with
   | nil => rfl
@@ -44,11 +112,16 @@ theorem parseArea_ok (v : Variant) (k : InputKind) (kind : AreaKind) (d : List N
       · rename_i b1 hb1
         split at hp
         · cases hp
-        · rename_i hsum
-          simp only [areaSumOk, sum8, beq_iff_eq]
-          have : (b0 :: t).getD 1 0 = b1 := by simp [List.getD, hb1]
-          rw [this, Nat.mul_comm]
-          omega
+        · rename_i hlen
+          split at hp
+          · cases hp
+          · rename_i hsum
+            have hg : (b0 :: t).getD 1 0 = b1 := by simp [List.getD, hb1]
+            simp only [hv, Bool.not_false, Bool.true_and, Bool.or_eq_true, beq_iff_eq, decide_eq_true_eq,
+              not_or] at hlen
+            simp only [areaSumOk, sum8, Bool.and_eq_true, decide_eq_true_eq, beq_iff_eq]
+            rw [hg, Nat.mul_comm]
+            refine ⟨⟨by omega, by omega⟩, by omega⟩
 
 theorem slotStep_ok {α : Type} (off : Nat) (bs : List Nat) (p : List Nat → Outcome (Slot α)) (s : Slot α)
     (h : slotStep off bs p = .ok s) : off = 0 ∨ p (bs.drop off) = .ok s := by
@@ -74,17 +147,19 @@ theorem baseRecord_ok (d : List Nat) (b : RecBase) (h : baseRecord d = .ok b) :
         subst h
         exact ⟨by omega, by omega, by omega, rfl, rfl⟩
 
-theorem picmgRecord_ok (d : List Nat) (p : PicmgRec) (h : picmgRecord d = .ok p) :
+theorem picmgRecord_ok (v : Variant) (d : List Nat) (p : PicmgRec) (h : picmgRecord v d = .ok p) :
     baseRecord d = .ok p.base := by
   simp only [picmgRecord] at h
   split at h
   · cases h
   · obtain ⟨b, hb, h⟩ := ok_of_bind h
-    injection h with h
-    subst h
-    exact hb
+    split at h
+    · cases h
+    · injection h with h
+      subst h
+      exact hb
 
-theorem parseRecord_ok (d : List Nat) (r : RecView) (h : parseRecord d = .ok r) :
+theorem parseRecord_ok (v : Variant) (d : List Nat) (r : RecView) (h : parseRecord v d = .ok r) :
     ∃ b, baseRecord d = .ok b ∧ r.eol = b.eol ∧ r.length = b.length := by
   cases d with
   | nil => simp [parseRecord] at h
@@ -96,26 +171,28 @@ theorem parseRecord_ok (d : List Nat) (r : RecView) (h : parseRecord d = .ok r) 
       · split at h
         · cases h
         · obtain ⟨q, hq, h⟩ := ok_of_bind h
-          injection h with h
-          subst h
-          exact ⟨q.base, picmgRecord_ok _ _ hq, rfl, rfl⟩
+          split at h
+          · cases h
+          · injection h with h
+            subst h
+            exact ⟨q.base, picmgRecord_ok _ _ _ hq, rfl, rfl⟩
       · obtain ⟨q, hq, h⟩ := ok_of_bind h
         injection h with h
         subst h
-        exact ⟨q.base, picmgRecord_ok _ _ hq, rfl, rfl⟩
+        exact ⟨q.base, picmgRecord_ok _ _ _ hq, rfl, rfl⟩
     · obtain ⟨b, hb, h⟩ := ok_of_bind h
       injection h with h
       subst h
       exact ⟨b, hb, rfl, rfl⟩
 
-theorem multiLoop_ok (fuel : Nat) (d : List Nat) (rs : List RecView) (h : multiLoop fuel d = .ok rs) :
+theorem multiLoop_ok (v : Variant) (fuel : Nat) (d : List Nat) (rs : List RecView) (h : multiLoop v fuel d = .ok rs) :
     recordsOk fuel d = true := by
   induction fuel generalizing d rs with
   | zero => simp [multiLoop] at h
   | succ n ih =>
     simp only [multiLoop] at h
     obtain ⟨r, hr, h⟩ := ok_of_bind h
-    obtain ⟨b, hb, e1, e2⟩ := parseRecord_ok d r hr
+    obtain ⟨b, hb, e1, e2⟩ := parseRecord_ok v d r hr
     obtain ⟨h5, hs1, hs2, be, bl⟩ := baseRecord_ok d b hb
     simp only [recordsOk, sum8, Bool.and_eq_true, decide_eq_true_eq, beq_iff_eq, Bool.or_eq_true]
     refine ⟨⟨⟨h5, hs1⟩, hs2⟩, ?_⟩
@@ -129,18 +206,48 @@ theorem multiLoop_ok (fuel : Nat) (d : List Nat) (rs : List RecView) (h : multiL
       rw [e2, bl] at hrs
       exact ih _ _ hrs
 
-theorem parseMulti_ok (d : List Nat) (s : Slot (List RecView)) (h : parseMulti d = .ok s) :
+theorem parseMulti_ok (v : Variant) (d : List Nat) (s : Slot (List RecView)) (h : parseMulti v d = .ok s) :
     multiSumOk d = true := by
   cases d with
   | nil => rfl
   | cons x t =>
     simp only [parseMulti] at h
     obtain ⟨rs, hrs, _⟩ := ok_of_bind h
-    exact multiLoop_ok _ _ _ hrs
+    exact multiLoop_ok _ _ _ _ hrs
 
 /-! ### whole image -/
 
-theorem accept_checksums (v : Variant) (k : InputKind) (bs : List Nat) (fv : FruView)
+theorem accept_checksums_clamped (v : Variant) (k : InputKind) (bs : List Nat) (fv : FruView)
+    (h : parseFru v k bs = .ok fv) : checksumsClamped bs = true := by
+  cases hb : bs with
+  | nil => decide
+  | cons x t =>
+    rw [← hb]
+    rw [parseFru_ne_nil v k bs (by rw [hb]; simp)] at h
+    unfold parseFruBody at h
+    obtain ⟨hd, hhd, h⟩ := ok_of_bind h
+    obtain ⟨c, hc, h⟩ := ok_of_bind h
+    obtain ⟨b, hbd, h⟩ := ok_of_bind h
+    obtain ⟨p, hpr, h⟩ := ok_of_bind h
+    obtain ⟨m, hm, _⟩ := ok_of_bind h
+    obtain ⟨hl, hs, o2, o3, o4, o5⟩ := parseHeader_ok _ _ hhd
+    rw [getD_take _ _ _ (by omega)] at o2 o3 o4 o5
+    simp only [checksumsClamped, Bool.and_eq_true, Bool.or_eq_true, beq_iff_eq, sum8, areaAt]
+    refine ⟨⟨⟨⟨hs, ?_⟩, ?_⟩, ?_⟩, ?_⟩
+    · rcases slotStep_ok _ _ _ _ hc with h0 | h1
+      · left; omega
+      · right; rw [o2, Nat.mul_comm] at h1; exact parseArea_clamped _ _ _ _ _ h1
+    · rcases slotStep_ok _ _ _ _ hbd with h0 | h1
+      · left; omega
+      · right; rw [o3, Nat.mul_comm] at h1; exact parseArea_clamped _ _ _ _ _ h1
+    · rcases slotStep_ok _ _ _ _ hpr with h0 | h1
+      · left; omega
+      · right; rw [o4, Nat.mul_comm] at h1; exact parseArea_clamped _ _ _ _ _ h1
+    · rcases slotStep_ok _ _ _ _ hm with h0 | h1
+      · left; omega
+      · right; rw [o5, Nat.mul_comm] at h1; exact parseMulti_ok _ _ _ h1
+
+theorem accept_checksums (v : Variant) (hv : v.areaLenLax = false) (k : InputKind) (bs : List Nat) (fv : FruView)
     (h : parseFru v k bs = .ok fv) : checksumsOk bs = true := by
   cases hb : bs with
   | nil => decide
@@ -159,15 +266,15 @@ theorem accept_checksums (v : Variant) (k : InputKind) (bs : List Nat) (fv : Fru
     refine ⟨⟨⟨⟨hs, ?_⟩, ?_⟩, ?_⟩, ?_⟩
     · rcases slotStep_ok _ _ _ _ hc with h0 | h1
       · left; omega
-      · right; rw [o2, Nat.mul_comm] at h1; exact parseArea_ok _ _ _ _ _ h1
+      · right; rw [o2, Nat.mul_comm] at h1; exact parseArea_ok _ hv _ _ _ _ h1
     · rcases slotStep_ok _ _ _ _ hbd with h0 | h1
       · left; omega
-      · right; rw [o3, Nat.mul_comm] at h1; exact parseArea_ok _ _ _ _ _ h1
+      · right; rw [o3, Nat.mul_comm] at h1; exact parseArea_ok _ hv _ _ _ _ h1
     · rcases slotStep_ok _ _ _ _ hpr with h0 | h1
       · left; omega
-      · right; rw [o4, Nat.mul_comm] at h1; exact parseArea_ok _ _ _ _ _ h1
+      · right; rw [o4, Nat.mul_comm] at h1; exact parseArea_ok _ hv _ _ _ _ h1
     · rcases slotStep_ok _ _ _ _ hm with h0 | h1
       · left; omega
-      · right; rw [o5, Nat.mul_comm] at h1; exact parseMulti_ok _ _ h1
+      · right; rw [o5, Nat.mul_comm] at h1; exact parseMulti_ok _ _ _ h1
 
 end PyIpmi.Fru
